@@ -14,8 +14,8 @@ VARIABLE x
 DevIdeal == {}
 \* as-is behaviours of the unchanged tree
 DevAsIs == {"NoExceptionBarrier", "UnaryAfterE", "TrailingTokensIgnored",
-            "ModFollowsDivisor", "RoundPythonBuiltin"}
-DevBarrierOnly == {"NoExceptionBarrier"}
+            "ModFollowsDivisor", "RoundPythonBuiltin", "EIntegerLoopUnbounded"}
+DevBarrierOnly == {"NoExceptionBarrier", "EIntegerLoopUnbounded"}
 DevUnaryAfterE == {"UnaryAfterE"}
 DevTrailing == {"TrailingTokensIgnored"}
 
